@@ -103,6 +103,10 @@ def run_shard(spec):
         p = conf.make("c13/%s/%d/%d" % (spec["seed"], spec["shard"], k), kind, header=False)
         body = p.text()
         name = p.name
+        if core.api_run(name, body, clock=False).outcome != "ok":
+            # a body the tool cannot analyse to a verdict (known finding F-60) says nothing about the header
+            sh.count("c13.body_not_analysed_skipped")
+            continue
         h, login = rand_header(r)
         src = "\n".join(h) + "\n\n" + body
         pk = PREDECESSORS[k % len(PREDECESSORS)]
